@@ -40,12 +40,13 @@ func (h *hist) rec(f string, a ...interface{}) {
 // ---- per-server pieces --------------------------------------------------------------------------
 
 type cfsm struct {
-	h     *hist
-	id    int
-	life  int
-	mu    sync.Mutex
-	state []int
-	slow  time.Duration
+	h       *hist
+	id      int
+	life    int
+	mu      sync.Mutex
+	state   []int
+	slow    time.Duration
+	persist time.Duration
 }
 
 func (f *cfsm) Apply(l *raft.Log) interface{} {
@@ -62,7 +63,7 @@ func (f *cfsm) Apply(l *raft.Log) interface{} {
 func (f *cfsm) Snapshot() (raft.FSMSnapshot, error) {
 	f.mu.Lock()
 	defer f.mu.Unlock()
-	return &fsmSnap{data: encodeState(f.state)}, nil
+	return &slowSnap{data: encodeState(f.state), d: f.persist}, nil
 }
 func (f *cfsm) Restore(rc io.ReadCloser) error {
 	b, err := io.ReadAll(rc)
@@ -75,6 +76,39 @@ func (f *cfsm) Restore(rc io.ReadCloser) error {
 	f.h.rec("F %d %d r %s", f.id, f.life, intsTok(f.state))
 	return nil
 }
+
+// cbfsm: the same state machine as a BatchingFSM with a ConfigurationStore
+type cbfsm struct{ *cfsm }
+
+func (f *cbfsm) ApplyBatch(logs []*raft.Log) []interface{} {
+	out := make([]interface{}, len(logs))
+	for i, l := range logs {
+		if l.Type == raft.LogCommand {
+			out[i] = f.cfsm.Apply(l)
+		} else {
+			out[i] = -1 - int(l.Index) // a configuration entry: its "response" must never reach a client
+		}
+	}
+	return out
+}
+func (f *cbfsm) StoreConfiguration(index uint64, configuration raft.Configuration) {}
+
+// slowSnap: Persist takes a while, so that InstallSnapshot / restore can fall into a running snapshot
+type slowSnap struct {
+	data []byte
+	d    time.Duration
+}
+
+func (s *slowSnap) Persist(sink raft.SnapshotSink) error {
+	time.Sleep(s.d)
+	if _, err := sink.Write(s.data); err != nil {
+		_ = sink.Cancel()
+		return err
+	}
+	return sink.Close()
+}
+func (s *slowSnap) Release() {}
+
 func (f *cfsm) snapshotState() []int {
 	f.mu.Lock()
 	defer f.mu.Unlock()
@@ -108,6 +142,7 @@ func (s *cstore) StoreLogs(ls []*raft.Log) error {
 func (s *cstore) StoreLog(l *raft.Log) error { return s.StoreLogs([]*raft.Log{l}) }
 
 type cnode struct {
+	batching  bool // the FSM is a BatchingFSM + ConfigurationStore in this lifetime
 	slowClock bool // this server's timeouts are 10x longer (a slow clock; C09 assumes nothing about clocks)
 	id        int
 	addr      raft.ServerAddress
@@ -268,7 +303,8 @@ func (c *cluster) noteSender(from int, term uint64) {
 
 func (c *cluster) startNode(n *cnode) {
 	n.life++
-	n.fsm = &cfsm{h: c.h, id: n.id, life: n.life}
+	n.fsm = &cfsm{h: c.h, id: n.id, life: n.life, persist: time.Duration(c.rng.Intn(3)*c.rng.Intn(60)) * time.Millisecond}
+	n.batching = c.rng.Intn(2) == 0
 	n.notify = make(chan bool, 1)
 	go func(ch chan bool, id, life int) {
 		for v := range ch {
@@ -289,7 +325,11 @@ func (c *cluster) startNode(n *cnode) {
 		go c.proxyLoop(n.id, o.id, px)
 	}
 	c.inj.Connect(n.addr, n.trans)
-	r, err := raft.NewRaft(c.conf(n.id, n), n.fsm, n.st, n.st, n.snaps, n.trans)
+	var theFSM raft.FSM = n.fsm
+	if n.batching {
+		theFSM = &cbfsm{n.fsm}
+	}
+	r, err := raft.NewRaft(c.conf(n.id, n), theFSM, n.st, n.st, n.snaps, n.trans)
 	if err != nil {
 		c.h.rec("X %d %d newraft-error", n.id, n.life)
 		n.up = false
@@ -565,6 +605,11 @@ func runClusterCase(rng *rand.Rand, thorough bool, out *bufio.Writer, st *stats,
 				n.st.mu.Lock()
 				n.st.failNext = 1 + rng.Intn(3)
 				n.st.mu.Unlock()
+				if rng.Intn(2) == 0 { // and its next snapshot cannot be finalized
+					n.snaps.mu.Lock()
+					n.snaps.failClose = 1
+					n.snaps.mu.Unlock()
+				}
 				st.Hist["disk-fault"]++
 			}
 		case x < 94: // membership: demote / promote the last server
@@ -593,6 +638,9 @@ func runClusterCase(rng *rand.Rand, thorough bool, out *bufio.Writer, st *stats,
 		n.st.mu.Lock()
 		n.st.failNext = 0
 		n.st.mu.Unlock()
+		n.snaps.mu.Lock()
+		n.snaps.failClose = 0
+		n.snaps.mu.Unlock()
 		if !n.up {
 			c.startNodeP(n)
 		}
